@@ -67,6 +67,24 @@ CLAIMED = {
          'and the real Association.send is checked against the announced values for messages below, at and above the '
          'fragment size, as bytes and as files.',
          'Trusted: Lean kernel; harness stubs for the provider queue. Maximum lengths 1..6 are outside the property.'),
+ 'C01': ('DESIGN.md §6 C01',
+         'Lean 4 round-trip theorem on the codec model + correspondence with pdu.py / userdataitems.py',
+         'decode_encode: for every well-formed PDU value (all 7 types, any item list, any list and order of sub-items, any '
+         'payload) decodePdu (Pdu.enc p) = p; reencode; subitems_any_order. The model mirrors the Python decoders statement '
+         'by statement (short reads, look-ahead, ignored lengths, read(-1)) and is diffed against the real code: same '
+         'canonical value, same re-encoding, same total length on the systematic generator (all 9x9 sub-item adjacencies, '
+         'titles 0..16, payloads to 70 kB) and same ok/error classification and value on mutated encodings.',
+         'Trusted: Lean kernel; the canonical forms of harness/pdugen.py. Text is modelled as bytes: WF asks for ASCII, where '
+         'Python len(str) and the encoded length coincide.'),
+ 'C02': ('DESIGN.md §6 C02',
+         'Lean 4 theorem: a strict length-driven PS3.8 reader reads the model encoder; layouts regenerated; reference encoder',
+         'spec_reads_impl: the strict reader written from PS3.8 9.3 / PS3.7 D.3.3 (every length field delimits a slice that '
+         'must be consumed exactly) recovers exactly the encoded values from Pdu.enc p for every WF2 value; length_reported; '
+         'struct formats and type codes are introspected and proved equal to the standard\'s. The strict reader is run as '
+         'oracle on the library\'s real bytes, and conformant encodings from an independent reference encoder (shapes the '
+         'library never emits) are decoded by the library.',
+         'Partial: that the strict grammar admits no byte strings other than images of values (needed for the full converse) '
+         'is checked through the reference encoder, not proved. Trusted: the transcription in Dicom/Spec/PduGrammar.lean.'),
 }
 
 PENDING_REASON = 'check not built yet in this round; planned in DESIGN.md §6 (Lean model + theorem + tie)'
